@@ -25,7 +25,7 @@ def make_cases(ctx, first):
         w = gen.World(ctx.rng, conf, profile=PROFILE)
         w.run(steps // 2)
         if conf["store"] == "dir" and ctx.rng.random() < 0.7:
-            w.add(special("restart", model="(restart)"))
+            w.add(restart_step())
             w.probe()
         w.run(len(w.steps) + steps // 2)
         w.probe()
